@@ -361,6 +361,7 @@ def explore_case(hmod, case, opts):
             CTX.pos = 0
             CTX.model = None
             CTX.uses_fp = False
+            CTX.uses_uf = False
             CTX.path_state = {}
             CTX.prefix_model = model
             CTX.prefix_len = len(prefix) if prefix else -1
